@@ -238,6 +238,13 @@ static void handle(int argc, char **argv) {
             {
                 cif_block_tp **all = NULL, **q;
                 int lrc = cif_get_all_blocks(cif, &all);
+                size_t u;
+                int odd_units = 0;
+                /* SQLite does not hand back U+FFFE / U+FFFF / unpaired surrogates as they were bound (a text BEGINNING with U+FFFE is even
+                   taken for byte-swapped UTF-16): a document holding such units can put a block code into the store that reads back
+                   differently — outside every property; the re-opening is not demanded of such documents */
+                for (u = 0; u < len; u++) if (units[u] >= 0xFFFE || (units[u] >= 0xD800 && units[u] <= 0xDFFF)) { odd_units = 1; break; }
+                if (odd_units && lrc == CIF_OK && all != NULL) { for (q = all; *q != NULL; q++) cif_container_free(*q); free(all); all = NULL; }
                 if (lrc == CIF_OK && all != NULL) {
                     for (q = all; *q != NULL; q++) {
                         UChar *code = NULL;
